@@ -440,10 +440,25 @@ def csv_classify(line, impl, mobs, extra):
     return info
 
 
+def c11_tok_classifier():
+    """`tok c11` cases: the candidates must be the rows of lex.csv (C03 predicate: every homograph once), and every reported
+    token must carry the surface, ids, cost and feature of the row it names, byte for byte (the C01 predicate, evaluated on the
+    implementation's tokens against the model's reading of the file) - what is stored AFTER parse_csv counts too."""
+    inner = tok2_classifier("C03", has_lattice_choice)
+
+    def classify(line, impl, mobs, extra):
+        info = inner(line, impl, mobs, extra)
+        if "prop_fail" not in info and pflags(extra).get("C01") == "0":
+            info["prop_fail"] = "token-does-not-carry-its-lexicon-row"
+            info["why"] = "a token's surface / ids / cost / feature differ from the lexicon row it names (e.g. the feature is not the remainder of the row byte for byte)"
+        return info
+    return classify
+
+
 def c11_streams(tier, seed):
     q = tier == "quick"
     return [(["csv", str(seed), "1500" if q else "40000"], csv_classify),
-            (["tok", "c11", str(seed), "60" if q else "1500"], tok2_classifier("C03", has_lattice_choice))]
+            (["tok", "c11", str(seed), "60" if q else "1500"], c11_tok_classifier())]
 
 
 def conn_classify(line, impl, mobs, extra):
